@@ -15,7 +15,7 @@ def _requests():
 
     reqs = {}
     base = hostjobs._requests()
-    for k in ("ok", "ok_double", "fn_ok", "loop_ok", "nnx_linear", "nnx_block", "eqx_linear", "user_raise", "unsupported", "fn_body_fail", "save_fail", "fn_flaky_ok", "fn_flaky_fail"):
+    for k in ("ok", "ok_double", "fn_ok", "loop_ok", "nnx_linear", "nnx_block", "eqx_linear", "user_raise", "unsupported", "fn_body_fail", "save_fail", "fn_flaky_ok", "fn_flaky_fail", "fn_nested_multi"):
         if k in base:
             reqs[k] = base[k]
     P = faultjobs.programs()
